@@ -357,7 +357,7 @@ class ObjNpModule(object):
                 return ONd(r)
             if name == 'eye':
                 return ONd(np.eye(*ua, **{k: v for k, v in uk.items() if k != 'dtype'}))
-            if name in ('cos', 'sin', 'sqrt', 'arccos', 'abs', 'absolute', 'sign', 'tan', 'arctan2', 'square', 'negative', 'ceil', 'floor'):
+            if name in ('cos', 'sin', 'sqrt', 'arccos', 'abs', 'absolute', 'sign', 'tan', 'arctan2', 'square', 'negative', 'ceil', 'floor', 'around', 'round', 'rint'):
                 return wrap(elementwise(name, ua))
             if name in ('max', 'min', 'amax', 'amin') and is_sym(ua[0]) and uk.get('axis') is None and len(ua) == 1:
                 vals = list(to_obj(np.asarray(ua[0])).reshape(-1))
@@ -395,7 +395,11 @@ class ObjNpModule(object):
                     return False
                 return reduce_bool(I, fr, _cmp(a, b, lambda x, y: core.sc_eq(x, y) if isinstance(x, S) or isinstance(y, S) else x == y), 'all')
             if name in ('isclose', 'allclose'):
-                raise Unsupported('np.%s in object-array mode' % name)
+                a_, b_ = ua[0], ua[1]
+                if not isinstance(a_, np.ndarray) and not isinstance(b_, np.ndarray):
+                    return core.sc_eq(a_, b_) if (isinstance(a_, S) or isinstance(b_, S)) else bool(np.isclose(a_, b_))      # K8: exact over the reals
+                r = _cmp(np.asarray(a_, dtype=object), np.asarray(b_, dtype=object), lambda x, y: core.sc_eq(x, y) if isinstance(x, S) or isinstance(y, S) else bool(np.isclose(x, y)))
+                return wrap(r) if name == 'isclose' else reduce_bool(I, fr, r, 'all')
             if name == 'isfinite':
                 return True if isinstance(ua[0], S) else wrap(np.isfinite(ua[0]))
             if name in PASS:
@@ -472,6 +476,11 @@ def scalar_fn(name, v):
             return -v
         if name == 'sign':
             return core.s_if(v > 0, 1.0, core.s_if(v < 0, -1.0, 0.0))
+        if name in ('around', 'round', 'rint'):
+            k = core.fresh_int('round')
+            kr = S(z3.ToReal(k.t))
+            core._side.append(z3.And((kr - v <= 0.5).t, (v - kr <= 0.5).t))
+            return S(k.t)
         if name in ('ceil', 'floor'):
             k = core.fresh_int(name)
             kr = S(z3.ToReal(k.t))
